@@ -12,6 +12,9 @@ CONSTANTS
   AllowRemove = FALSE
   Interval = 4
   NC = 1
+  MainRes = {"void"}
+  MainVia = {"direct"}
+  MaxRuns = 1
 INVARIANTS TypeOK HeapWellFormed LiveMatchesPending NeverEarly DeadlineOrder PromptManual CancelHitsOne NotifyWhenEarliest NothingAfterDestroy IntervalConsistent
 PROPERTIES ExactlyOncePerSleep LiveFrame CancelFalseNoEffect DestroyCancelsPending
 CHECK_DEADLOCK FALSE
